@@ -731,6 +731,7 @@ def execStmt (w : World τ) (a : ActId) (fs : List (Frame τ)) : Stmt τ → Wor
       w.doNotifAwait a (.cGetWait c key :: .cGotValue c key :: fs) ch.notif
   | .cClose c =>
     let ch := w.chans.getD c default
+    let w := w.emit a "cclose" [c]
     let w := if !ch.closed then
         ({ w with chans := w.chans.modify c (fun x => { x with closed := true }) }).awakeAll ch.notif
       else w
